@@ -18,13 +18,12 @@ from __future__ import annotations
 import ast
 from fractions import Fraction
 
-from ..engine.cfg import CFG
 from ..engine.normalize import inline_helpers, positional
 from ..engine.report import AnalysisError, Run
 from ..engine.resolver import Program, body_walk
 from ..engine.sympath import sym_block, sym_paths
 from ..engine.terms import Poly, TermEval
-from ..engine.util import method_call, node_writes, nodes_with_call, u
+from ..engine.util import method_call, u
 
 MOD = "timeseries._resampling"
 RES = f"{MOD}:Resampler"
@@ -187,61 +186,80 @@ def _subst_zero(p: Poly, atom: str) -> Poly:
 
 def check_step(run: Run, prog: Program) -> None:
     cls = prog.cls(RES)
+    fn = prog.func(f"{RES}.resample")
+    run.analysed(fn.qual)
+    node = inline_helpers(prog, fn)
+    absorbed = set(getattr(node, "_spliced", ()))
+    # a helper read into resample() counts as part of it only if nobody else calls it
+    for h in sorted(absorbed):
+        hq = f"{RES}.{h}"
+        others = [c for c, _ in prog.callers(hq) if c.qual != fn.qual and c.name not in absorbed] \
+            if h in cls.methods else []
+        if others:
+            absorbed.discard(h)
     writers = []
     for m in cls.methods.values():
         for s in body_walk(m.node):
             if isinstance(s, (ast.Assign, ast.AugAssign, ast.AnnAssign)):
                 tg = s.targets[0] if isinstance(s, ast.Assign) else s.target
                 if u(tg) == "self._window_end":
-                    writers.append((m, s))
-    names = sorted(m.name for m, _ in writers)
-    run.check(names == ["__init__", "resample"], "C07.STEP", cls.qual, f"writers of _window_end: {names}",
-              "self._window_end is written somewhere else than the constructor and the per-tick advance",
+                    writers.append(m.name)
+    extra = sorted(set(writers) - {"__init__", "resample"} - absorbed)
+    run.check(not extra and "__init__" in writers, "C07.STEP", cls.qual, "writers of _window_end: constructor and the per-tick advance",
+              f"self._window_end is written somewhere else than the constructor and the per-tick advance ({extra})",
               node=cls.node, file=cls.module.rel)
-    fn = prog.func(f"{RES}.resample")
-    run.analysed(fn.qual)
-    cfg = CFG(fn.node, fn.file)
-    incs = [n for n in cfg.nodes if n.kind == "stmt" and any(u(w) == "self._window_end" for w in node_writes(cfg, n.id))]
-    if len(incs) != 1:
-        run.violation("C07.STEP", fn.qual, "advance of _window_end",
-                      f"expected one advance of the window end per tick, found {len(incs)}",
-                      node=fn.node, file=fn.file)
-        return
-    inc = incs[0]
-    s = inc.ast
-    ok = isinstance(s, ast.AugAssign) and isinstance(s.op, ast.Add) and u(s.value) == "self._config.resampling_period"
-    if not ok and isinstance(s, ast.Assign):
-        ok = TermEval().ev(s.value) == Poly.atom("self._window_end") + Poly.atom("self._config.resampling_period")
-    run.check(ok, "C07.STEP", fn.qual, s,
-              "the window end does not advance by exactly one resampling period per tick (the timer "
-              "still fires once per period, so timestamps would skip or repeat)", node=s, file=fn.file)
-    loops = [n for n in cfg.nodes if n.kind == "for" and u(n.ast.iter) == "self._timer"]  # type: ignore[union-attr]
-    gathers = [x for x in nodes_with_call(cfg, lambda c: u(c.func) == "asyncio.gather") if cfg.is_await(x)]
-    if len(loops) != 1 or len(gathers) != 1:
-        raise AnalysisError(f"{fn.qual}: timer loop / gather not found")
-    h, g = loops[0], gathers[0]
-    normal = lambda a, b, lab: not lab.startswith("exc:")  # noqa: E731
-    after = [m for m, lab in cfg.succ[g] if not lab.startswith("exc:")]
-    stops = [h.id, cfg.exit] + [n.id for n in cfg.nodes if isinstance(n.ast, (ast.Raise, ast.Break, ast.Return))]
-    wit = None if after and after[0] == inc.id else cfg.path(after[0], stops, avoid=[inc.id], edge_ok=normal)
-    run.check(wit is None, "C07.STEP", fn.qual, "advance before any raise/break of the tick",
-              "after the tick's gather completes there is a path to the next tick / raise / break that "
-              "skips the advance of _window_end: when a sink fails and resample() is called again the "
-              "same timestamp is emitted twice", node=inc.ast, file=fn.file, path=cfg.describe_path(wit))
-    twice = cfg.path(inc.id, [inc.id], avoid=[h.id], include_src=False, edge_ok=normal)
-    run.check(twice is None, "C07.STEP", fn.qual, "advance at most once per tick",
-              "the window end can advance twice within one tick", node=inc.ast, file=fn.file,
-              path=cfg.describe_path(twice))
-    # the advance is not conditional on the outcome of the sinks
-    first = [m for m, lab in cfg.succ[h.id] if lab == "iter"]
-    wit = cfg.path(first[0], [h.id], avoid=[inc.id, g], edge_ok=normal)
-    run.check(wit is None, "C07.STEP", fn.qual, "every tick gathers and advances",
-              "a tick can be consumed without resampling/advancing", node=fn.node, file=fn.file,
-              path=cfg.describe_path(wit))
-    wit = cfg.path(first[0], [g], avoid=[], edge_ok=normal)
-    between = cfg.reachable(first, avoid=[g, h.id], edge_ok=normal)
-    run.check(inc.id not in between, "C07.STEP", fn.qual, "advance after the gather",
-              "the window end is advanced before the series are resampled with it", node=inc.ast, file=fn.file)
+    loops = [s for s in body_walk(node) if isinstance(s, (ast.AsyncFor, ast.For)) and u(s.iter) == "self._timer"]
+    if len(loops) != 1:
+        raise AnalysisError(f"{fn.qual}: timer loop not found")
+    te = TermEval()
+    n_adv = 0
+    for p, st in sym_block(loops[0].body, env=_pre_loop_env(node, loops[0])):
+        where = dict(node=fn.node, file=fn.file, path=p.describe() + [f"tick ends with: {st}"])
+        order = [(i, e) for i, e in enumerate(p.effects)]
+        gathers = [i for i, e in order if e.kind == "call" and u(e.node.func) == "asyncio.gather"]  # type: ignore[attr-defined]
+        advances = [(i, e) for i, e in order if e.kind == "write" and u(e.node.elts[0]) == "self._window_end"]  # type: ignore[attr-defined]
+        ok = len(gathers) == 1
+        run.check(ok, "C07.STEP", fn.qual, "every tick gathers and advances",
+                  "a tick can be consumed without resampling the series exactly once", **where)
+        if not ok:
+            continue
+        ok = len(advances) == 1
+        run.check(ok, "C07.STEP", fn.qual, "advance exactly once per tick, before any raise/break of the tick",
+                  f"the window end is advanced {len(advances)} times on this path of a tick: when a sink fails and "
+                  "resample() is called again the same timestamp is emitted twice (or one is skipped)", **where)
+        if not ok:
+            continue
+        n_adv += 1
+        i_adv, adv = advances[0]
+        run.check(i_adv > gathers[0], "C07.STEP", fn.qual, "advance after the gather",
+                  "the window end is advanced before the series are resampled with it", **where)
+        val = adv.node.elts[1]  # type: ignore[attr-defined]
+        ok = te.ev(val) == Poly.atom("self._window_end") + Poly.atom(PER)
+        run.check(ok, "C07.STEP", fn.qual, "self._window_end += self._config.resampling_period",
+                  "the window end does not advance by exactly one resampling period per tick (the timer "
+                  f"still fires once per period, so timestamps would skip or repeat); found {u(val)[:100]}", **where)
+    if not n_adv:
+        raise AnalysisError(f"{fn.qual}: no tick path advances the window end")
+
+
+def _pre_loop_env(fn_node: ast.AST, loop: ast.AST) -> dict[str, ast.AST]:
+    """Locals bound (once, purely) before the loop, so that the loop body sees through them."""
+    env: dict[str, ast.AST] = {}
+    for s in getattr(fn_node, "body", []):
+        if s is loop:
+            break
+        if isinstance(s, (ast.Assign, ast.AnnAssign)) and s.value is not None:
+            tg = s.targets[0] if isinstance(s, ast.Assign) and len(s.targets) == 1 else getattr(s, "target", None)
+            if isinstance(tg, ast.Name):
+                rebound = sum(1 for n in ast.walk(fn_node) if isinstance(n, ast.Name) and n.id == tg.id
+                              and isinstance(n.ctx, ast.Store))
+                if rebound == 1 and not any(isinstance(n, ast.Await) for n in ast.walk(s.value)):
+                    class S(ast.NodeTransformer):
+                        def visit_Name(self, n: ast.Name) -> ast.AST:  # noqa: N802
+                            return env.get(n.id, n) if isinstance(n.ctx, ast.Load) else n
+                    import copy as _copy
+                    env[tg.id] = S().visit(_copy.deepcopy(s.value))
+    return env
 
 
 ACTOR = "microgrid._resampling:ComponentMetricsResamplingActor"
